@@ -69,7 +69,7 @@ func (vc *VC) heapWF(name string, h Term, alloc Term) Term {
 	refs := vc.refTerms(et, cell, 0)
 	// interface-typed components hold nil or a value of an implementing dynamic type
 	ifacts := vc.ifaceFacts(et, cell, 0)
-	if len(refs) == 0 && ifacts == "true" {
+	if len(refs) == 0 && ifacts == "true" && len(vc.shapeFacts(et, cell, 0)) == 0 {
 		return ""
 	}
 	var cs []Term
@@ -77,6 +77,7 @@ func (vc *VC) heapWF(name string, h Term, alloc Term) Term {
 		cs = append(cs, app("<", r, alloc), app("<=", "0", r))
 	}
 	cs = append(cs, ifacts)
+	cs = append(cs, vc.shapeFacts(et, cell, 0)...)
 	return fmt.Sprintf("(forall %s (! %s :pattern (%s)))", binders, and(cs...), cell)
 }
 
@@ -120,4 +121,33 @@ func (vc *VC) ifaceFacts(t types.Type, e Term, depth int) Term {
 		return and(fs...)
 	}
 	return "true"
+}
+
+// shapeFacts: value-shape facts of a memory cell that every Go value satisfies: integer ranges of
+// fixed-width fields, 0 <= len <= cap of slices, non-negative string lengths (depth-limited).
+func (vc *VC) shapeFacts(t types.Type, e Term, depth int) []Term {
+	switch u := t.Underlying().(type) {
+	case *types.Basic:
+		if _, _, ok := intInfo(t); ok {
+			if f := inRange(t, e); f != "true" {
+				return []Term{f}
+			}
+		}
+		if u.Info()&types.IsString != 0 {
+			return []Term{app("<=", "0", strLen(e)), app("<=", strLen(e), maxLen), app("<=", "0", app("st.off", e))}
+		}
+	case *types.Slice:
+		return []Term{app("<=", "0", slOff(e)), app("<=", "0", slLen(e)), app("<=", slLen(e), slCap(e)), app("<=", slCap(e), maxLen)}
+	case *types.Struct:
+		if depth > 1 {
+			return nil
+		}
+		ss := vc.S.structOf(t)
+		var out []Term
+		for i := 0; i < u.NumFields(); i++ {
+			out = append(out, vc.shapeFacts(u.Field(i).Type(), app(ss.fields[i], e), depth+1)...)
+		}
+		return out
+	}
+	return nil
 }
